@@ -986,4 +986,327 @@ theorem polyContains_eq_spec (vs : List Pt) (p : Pt) (h3 : 3 ≤ vs.length) :
   | false => simp
   | true => simp [polyKeep_of_crossParity vs p hc]
 
+/-! ### `move_to` for the other classes; the unified statements -/
+
+theorem dist2_shift (xc yc : Rat) (d p : Pt) :
+    dist2 (xc + d.1) (yc + d.2) p = dist2 xc yc (p.1 - d.1, p.2 - d.2) := by
+  simp only [dist2]; ring
+
+theorem circle_move (c : Circle) (t p : Pt) :
+    Impl.circleContains { c with xc := t.1, yc := t.2 } p =
+      Impl.circleContains c (p.1 - (t.1 - c.xc), p.2 - (t.2 - c.yc)) := by
+  rw [Bool.eq_iff_iff, circle_iff, circle_iff]
+  dsimp only
+  have e : dist2 t.1 t.2 p = dist2 c.xc c.yc (p.1 - (t.1 - c.xc), p.2 - (t.2 - c.yc)) := by
+    simp only [dist2]; ring
+  rw [e]
+
+theorem annulus_move (a : Annulus) (t p : Pt) :
+    Impl.annulusContains { a with xc := t.1, yc := t.2 } p =
+      Impl.annulusContains a (p.1 - (t.1 - a.xc), p.2 - (t.2 - a.yc)) := by
+  rw [Bool.eq_iff_iff, annulus_iff, annulus_iff]
+  dsimp only
+  have e : dist2 t.1 t.2 p = dist2 a.xc a.yc (p.1 - (t.1 - a.xc), p.2 - (t.2 - a.yc)) := by
+    simp only [dist2]; ring
+  rw [e]
+
+theorem range_move (r : Range) (d : Rat) (p : Pt) :
+    Impl.rangeContains { r with lo := r.lo + d, hi := r.hi + d } p =
+      Impl.rangeContains r (if r.isX then (p.1 - d, p.2) else (p.1, p.2 - d)) := by
+  rw [Bool.eq_iff_iff, range_iff, range_iff]
+  cases hx : r.isX <;> simp only [if_true, if_false, Bool.false_eq_true] <;>
+    (constructor <;> rintro ⟨h1, h2⟩ <;> exact ⟨by linarith, by linarith⟩)
+
+/-- The ellipse translated by `d`. -/
+def ellShift (e : Ellipse) (d : Pt) : Ellipse := { e with xc := e.xc + d.1, yc := e.yc + d.2 }
+
+theorem ellShift_loc (e : Ellipse) (d p : Pt) : (ellShift e d).loc p = e.loc (p.1 - d.1, p.2 - d.2) := by
+  simp only [Ellipse.loc, ellShift]
+  have e1 : p.1 - (e.xc + d.1) = p.1 - d.1 - e.xc := by ring
+  have e2 : p.2 - (e.yc + d.2) = p.2 - d.2 - e.yc := by ring
+  rw [e1, e2]
+
+theorem ellShift_keep (e : Ellipse) (d p : Pt) : (ellShift e d).keep p = e.keep (p.1 - d.1, p.2 - d.2) := by
+  rw [Bool.eq_iff_iff, ell_keep_iff, ell_keep_iff]
+  simp only [ellShift]
+  constructor <;> rintro ⟨h1, h2, h3, h4⟩ <;> exact ⟨by linarith, by linarith, by linarith, by linarith⟩
+
+theorem ellShift_contains (e : Ellipse) (d p : Pt) :
+    Impl.ellipseContains (ellShift e d) p = Impl.ellipseContains e (p.1 - d.1, p.2 - d.2) := by
+  have hl := ellShift_loc e d p
+  have hk := ellShift_keep e d p
+  have e1 : p.1 - (e.xc + d.1) = p.1 - d.1 - e.xc := by ring
+  have e2 : p.2 - (e.yc + d.2) = p.2 - d.2 - e.yc := by ring
+  unfold Impl.ellipseContains
+  rw [hl, hk]
+  simp only [ellShift, e1, e2]
+  rfl
+
+theorem ellShift_spec (e : Ellipse) (d p : Pt) :
+    Spec.ellipseContains (ellShift e d) p = Spec.ellipseContains e (p.1 - d.1, p.2 - d.2) := by
+  have hl := ellShift_loc e d p
+  unfold Spec.ellipseContains
+  rw [hl]
+  simp only [ellShift]
+  rfl
+
+theorem ell_moveTo_eq (e : Ellipse) (t : Pt) :
+    ({ e with xc := t.1, yc := t.2 } : Ellipse) = ellShift e (t.1 - e.xc, t.2 - e.yc) := by
+  simp only [ellShift]
+  congr 1 <;> ring
+
+/-- **`move_equivariant`**, every class: after `move_to(t)` a point is contained iff the point moved
+back by the displacement `t − center` (for a range: along its own axis) was contained before. -/
+theorem move_equivariant (roi : Roi) (t p : Pt) :
+    Impl.contains (roi.moveTo t) p =
+      Impl.contains roi (p.1 - (roi.moveDelta t).1, p.2 - (roi.moveDelta t).2) := by
+  cases roi with
+  | rect r =>
+    rw [rect_moveTo_eq]
+    show Impl.rectContains (rectShift r _) p = Impl.rectContains r _
+    rw [rectShift_contains]
+    rfl
+  | circle c => exact circle_move c t p
+  | ellipse e =>
+    show Impl.ellipseContains { e with xc := t.1, yc := t.2 } p = _
+    rw [ell_moveTo_eq, ellShift_contains]
+    rfl
+  | annulus a => exact annulus_move a t p
+  | range r =>
+    show Impl.rangeContains { r with lo := r.lo + _, hi := r.hi + _ } p = _
+    rw [range_move]
+    simp only [Roi.moveDelta, Impl.contains]
+    cases r.isX <;> simp
+  | poly g =>
+    rw [poly_moveTo_eq]
+    exact polyContains_shift _ p g.vs
+  | undefined => rfl
+
+/-- **`center_moveTo`**: after `move_to(t)` the reported centre is `t` (rectangle, circle, ellipse,
+annulus, non-empty polygon). -/
+theorem center_moveTo (roi : Roi) (t : Pt) (hdef : roi.defined = true)
+    (hr : ∀ r, roi ≠ .range r) : (roi.moveTo t).center = t := by
+  cases roi with
+  | rect r =>
+    show (rectShift r (t.1 - r.center.1, t.2 - r.center.2)).center = t
+    rw [rectShift_center]
+    ext <;> simp
+  | circle c => rfl
+  | ellipse e => rfl
+  | annulus a => rfl
+  | range r => exact absurd rfl (hr r)
+  | poly g =>
+    rw [poly_moveTo_eq]
+    have hne : g.vs ≠ [] := by
+      intro h
+      simp [Roi.defined, h] at hdef
+    show polyCenter (g.vs.map _) = t
+    rw [polyCenter_shift _ _ hne]
+    simp only [shiftPt]
+    ext <;> simp
+  | undefined => simp [Roi.defined] at hdef
+
+/-- A range moved to `t` is centred on `t` along its own axis. -/
+theorem range_center_moveTo (r : Range) (t : Pt) :
+    ((Roi.range r).moveTo t).center = if r.isX then (t.1, t.1) else (t.2, t.2) := by
+  simp only [Roi.moveTo, Roi.center]
+  cases r.isX <;> simp <;> ring
+
+/-! ### `rotate_to` for rectangle and ellipse -/
+
+theorem unrot_comp (c s dc ds : Rat) (v : Pt) :
+    unrot c s (unrot dc ds v) = unrot (c * dc - s * ds) (s * dc + c * ds) v := by
+  simp only [unrot]
+  ext <;> simp <;> ring
+
+/-- `θ + (θ' − θ) = θ'` on unit vectors. -/
+theorem rel_angle (c s c' s' : Rat) (hu : c * c + s * s = 1) :
+    c * (c' * c + s' * s) - s * (s' * c - c' * s) = c' ∧
+    s * (c' * c + s' * s) + c * (s' * c - c' * s) = s' := by
+  constructor
+  · have : c * (c' * c + s' * s) - s * (s' * c - c' * s) = c' * (c * c + s * s) := by ring
+    rw [this, hu, mul_one]
+  · have : s * (c' * c + s' * s) + c * (s' * c - c' * s) = s' * (c * c + s * s) := by ring
+    rw [this, hu, mul_one]
+
+/-- The point turned back about `ctr` by the angle with unit vector `(dc, ds)`. -/
+def turnBack (ctr : Pt) (dc ds : Rat) (p : Pt) : Pt :=
+  ((unrot dc ds (p.1 - ctr.1, p.2 - ctr.2)).1 + ctr.1, (unrot dc ds (p.1 - ctr.1, p.2 - ctr.2)).2 + ctr.2)
+
+def rectTurn (r : Rect) (c' s' : Rat) : Rect := { r with c := c', s := s' }
+
+theorem rect_rotateTo_eq (r : Rect) (c' s' : Rat) :
+    (Roi.rect r).rotateTo c' s' = .rect (rectTurn r c' s') := rfl
+
+theorem rectTurn_loc (r : Rect) (c' s' : Rat) (p : Pt) (hu : r.c * r.c + r.s * r.s = 1) :
+    (rectTurn r c' s').loc p =
+      r.loc (turnBack r.center (c' * r.c + s' * r.s) (s' * r.c - c' * r.s) p) := by
+  have hc : (rectTurn r c' s').center = r.center := rfl
+  obtain ⟨a1, a2⟩ := rel_angle r.c r.s c' s' hu
+  simp only [Rect.loc, hc, turnBack]
+  have e1 : ∀ x y : Rat, x + y - y = x := fun x y => by ring
+  rw [e1, e1, unrot_comp, a1, a2]
+  rfl
+
+theorem rectTurn_spec (r : Rect) (c' s' : Rat) (p : Pt) (hu : r.c * r.c + r.s * r.s = 1) :
+    Spec.rectContains (rectTurn r c' s') p =
+      Spec.rectContains r (turnBack r.center (c' * r.c + s' * r.s) (s' * r.c - c' * r.s) p) := by
+  have hw : (rectTurn r c' s').width = r.width := rfl
+  have hh : (rectTurn r c' s').height = r.height := rfl
+  simp only [Spec.rectContains, rectTurn_loc r c' s' p hu, hw, hh]
+
+theorem rectTurn_near (r : Rect) (c' s' : Rat) (p : Pt) (ε : Rat) (hu : r.c * r.c + r.s * r.s = 1) :
+    (rectTurn r c' s').near p ε =
+      r.near (turnBack r.center (c' * r.c + s' * r.s) (s' * r.c - c' * r.s) p) ε := by
+  have hw : (rectTurn r c' s').width = r.width := rfl
+  have hh : (rectTurn r c' s').height = r.height := rfl
+  simp only [Rect.near, rectTurn_loc r c' s' p hu, hw, hh]
+
+/-- **`rotate_equivariant` (rectangle)** on the coded tests: after `rotate_to(θ')` a point is
+contained iff the point turned back about the centre by `θ' − θ` was contained before — off the band,
+whichever branches the two angles select. -/
+theorem rect_rotate_equivariant (r : Rect) (c' s' : Rat) (p : Pt) (ε : Rat)
+    (hu : r.c * r.c + r.s * r.s = 1) (hu' : c' * c' + s' * s' = 1) (hε : 0 ≤ ε)
+    (ht : r.branchTol ≤ ε) (ht' : (rectTurn r c' s').branchTol ≤ ε)
+    (hfar : (rectTurn r c' s').near p ε = false) :
+    Impl.rectContains (rectTurn r c' s') p =
+      Impl.rectContains r (turnBack r.center (c' * r.c + s' * r.s) (s' * r.c - c' * r.s) p) := by
+  rw [rect_branches_agree (rectTurn r c' s') p ε hu' hε ht' hfar, rectTurn_spec r c' s' p hu]
+  rw [rectTurn_near r c' s' p ε hu] at hfar
+  rw [rect_branches_agree r _ ε hu hε ht hfar]
+
+def ellTurn (e : Ellipse) (c' s' : Rat) : Ellipse := { e with c := c', s := s' }
+
+theorem ell_rotateTo_eq (e : Ellipse) (c' s' : Rat) :
+    (Roi.ellipse e).rotateTo c' s' = .ellipse (ellTurn e c' s') := rfl
+
+theorem ellTurn_loc (e : Ellipse) (c' s' : Rat) (p : Pt) (hu : e.c * e.c + e.s * e.s = 1) :
+    (ellTurn e c' s').loc p =
+      e.loc (turnBack (e.xc, e.yc) (c' * e.c + s' * e.s) (s' * e.c - c' * e.s) p) := by
+  obtain ⟨a1, a2⟩ := rel_angle e.c e.s c' s' hu
+  simp only [Ellipse.loc, turnBack, ellTurn]
+  have e1 : ∀ x y : Rat, x + y - y = x := fun x y => by ring
+  rw [e1, e1, unrot_comp, a1, a2]
+
+/-- **`rotate_equivariant` (ellipse)**, geometric definition, every point. -/
+theorem ellTurn_spec (e : Ellipse) (c' s' : Rat) (p : Pt) (hu : e.c * e.c + e.s * e.s = 1) :
+    Spec.ellipseContains (ellTurn e c' s') p =
+      Spec.ellipseContains e (turnBack (e.xc, e.yc) (c' * e.c + s' * e.s) (s' * e.c - c' * e.s) p) := by
+  have hl := ellTurn_loc e c' s' p hu
+  unfold Spec.ellipseContains
+  rw [hl]
+  rfl
+
+/-! ### copy, save/restore, array shape, chunking, categorical -/
+
+theorem zip_fst_snd (vs : List Pt) : (vs.map (·.1)).zip (vs.map (·.2)) = vs := by
+  induction vs with
+  | nil => rfl
+  | cons v rest ih => simp only [List.map_cons, List.zip_cons_cons, ih]
+
+/-- **`params_roundtrip`**: `__setgluestate__(__gluestate__(roi))` rebuilds the same parameters
+(a polygon's position angle restarts at 0; its vertices are kept). -/
+theorem params_roundtrip (roi : Roi) : Roi.ofState roi.toState = some roi.restored := by
+  cases roi with
+  | rect r => rfl
+  | circle c => rfl
+  | ellipse e => rfl
+  | annulus a => rfl
+  | range r => cases r with | mk isX lo hi => cases isX <;> rfl
+  | poly g =>
+    show (match (some (SVal.nums (g.vs.map (·.1))) : Option SVal), (some (SVal.nums (g.vs.map (·.2))) : Option SVal) with
+      | some (.nums xs), some (.nums ys) => some (Roi.poly { vs := xs.zip ys })
+      | _, _ => none) = _
+    simp only [zip_fst_snd]
+    rfl
+  | undefined => rfl
+
+theorem restored_contains (roi : Roi) (p : Pt) : Impl.contains roi.restored p = Impl.contains roi p := by
+  cases roi <;> rfl
+
+/-- **`shape_independent`**: evaluating on any re-arrangement of the points (reshape, transpose,
+broadcast view, chunk — any list of positions `idx` into the point list) is the re-arrangement of the
+pointwise answers. -/
+theorem shape_independent (f : PtO → Bool) (ps : List PtO) (idx : List Nat) (d : PtO) :
+    (idx.map fun i => ps.getD i d).map f = idx.map fun i => (ps.map f).getD i (f d) := by
+  rw [List.map_map]
+  apply List.map_congr_left
+  intro i _
+  simp only [Function.comp, List.getD_eq_getElem?_getD, List.getElem?_map]
+  cases ps[i]? <;> rfl
+
+theorem assembleChunks_of_partition (shape : List Nat) (chunks : List ArrayUtil.Chunk) (f : List Nat → Bool)
+    (h : ArrayUtil.isPartition shape chunks = true) :
+    assembleChunks shape chunks f = (ArrayUtil.allIndices shape).map f := by
+  unfold assembleChunks
+  apply List.map_congr_left
+  intro idx hidx
+  simp only [ArrayUtil.isPartition, Bool.and_eq_true, List.all_eq_true] at h
+  have h1 := h.2 idx hidx
+  have hany : chunks.any (ArrayUtil.inChunk idx) = true := by
+    rw [List.any_eq_true]
+    have hl : (chunks.filter (ArrayUtil.inChunk idx)).length = 1 := by simpa using h1
+    match hf : chunks.filter (ArrayUtil.inChunk idx) with
+    | [] => rw [hf] at hl; simp at hl
+    | x :: _ =>
+      have hx : x ∈ chunks.filter (ArrayUtil.inChunk idx) := by rw [hf]; exact List.mem_cons_self ..
+      exact ⟨x, (List.mem_filter.1 hx).1, (List.mem_filter.1 hx).2⟩
+  rw [hany]
+  rfl
+
+theorem strictSorted_head_lt (c : Int) (cs : List Int) (h : ArrayUtil.strictSorted (c :: cs) = true) :
+    (∀ y ∈ cs, c < y) ∧ ArrayUtil.strictSorted cs = true := by
+  induction cs generalizing c with
+  | nil => exact ⟨fun y hy => absurd hy (List.not_mem_nil), rfl⟩
+  | cons d rest ih =>
+    simp only [ArrayUtil.strictSorted, Bool.and_eq_true, decide_eq_true_eq] at h
+    obtain ⟨hcd, hs⟩ := h
+    refine ⟨?_, hs⟩
+    intro y hy
+    rcases List.mem_cons.1 hy with rfl | hy
+    · exact hcd
+    · exact lt_trans hcd ((ih d hs).1 y hy)
+
+/-- **Categorical**: `searchsorted` + equality is membership, for sorted categories. -/
+theorem catContains_eq_spec (cats : List Int) (x : Int) (h : ArrayUtil.strictSorted cats = true) :
+    Impl.catContains cats x = Spec.catContains cats x := by
+  induction cats with
+  | nil => rfl
+  | cons c cs ih =>
+    obtain ⟨hlt, hs⟩ := strictSorted_head_lt c cs h
+    have ih' := ih hs
+    simp only [Spec.catContains] at ih' ⊢
+    by_cases hcx : c < x
+    · have hne : ¬ (x = c) := fun e => by omega
+      have hss : searchSorted (c :: cs) x = searchSorted cs x + 1 := by
+        simp [searchSorted, List.takeWhile_cons, hcx]
+      cases cs with
+      | nil =>
+        simp [Impl.catContains, hss, hne]
+        omega
+      | cons d rest =>
+        have hmem : (c :: d :: rest).contains x = (d :: rest).contains x := by
+          simp [hne]
+        rw [hmem, ← ih']
+        simp only [Impl.catContains, hss, List.length_cons]
+        have e : min (searchSorted (d :: rest) x + 1) (rest.length + 1 + 1 - 1)
+            = min (searchSorted (d :: rest) x) (rest.length + 1 - 1) + 1 := by omega
+        rw [e]
+        simp
+    · have hss : searchSorted (c :: cs) x = 0 := by
+        simp [searchSorted, List.takeWhile_cons, hcx]
+      have hnot : ∀ y ∈ cs, ¬ (x = y) := fun y hy e => by
+        have := hlt y hy
+        omega
+      have hmem : (c :: cs).contains x = (x == c) := by
+        rw [List.contains_cons]
+        have : cs.contains x = false := by
+          rw [← Bool.not_eq_true, List.contains_iff_mem]
+          exact fun hm => hnot x hm rfl
+        rw [this, Bool.or_false]
+      rw [hmem]
+      simp only [Impl.catContains, hss, List.length_cons]
+      simp
+      constructor <;> intro e <;> exact e.symm
+
 end GlueVerif.Lemmas.Geometry
